@@ -42,6 +42,7 @@ def gen_var_bundle(rng, allow=None, p_each=0.3):
     maybe("memory_efficient", {"state": rng.random() < 0.5}, 0.15)
     maybe("use_toeplitz", {"state": rng.random() < 0.5}, 0.15)
     maybe("debug", {"state": rng.random() < 0.5}, 0.15)
+    maybe("skip_posterior_variances", {"state": rng.random() < 0.8}, 0.2)
     rng.shuffle(b)
     return b
 
